@@ -26,6 +26,8 @@ type History struct {
 	Mem    bool         `json:"mem,omitempty"`
 	// FilterUID: every sync runs with a receiver-side Filter that rewrites ownership
 	FilterUID bool `json:"filteruid,omitempty"`
+	// FilterShift: the receiver-side Filter adds 1000 to uid and gid (not idempotent)
+	FilterShift bool `json:"filtershift,omitempty"`
 }
 
 func (h History) String() string {
@@ -33,7 +35,7 @@ func (h History) String() string {
 	for _, st := range h.Steps {
 		s = append(s, describeEdits(st))
 	}
-	return fmt.Sprintf("base=%s; sync; %s; sync (differ=%d mem=%v filteruid=%v)", h.Base, strings.Join(s, "; sync; "), h.Differ, h.Mem, h.FilterUID)
+	return fmt.Sprintf("base=%s; sync; %s; sync (differ=%d mem=%v filteruid=%v)", h.Base, strings.Join(s, "; sync; "), h.Differ, h.Mem, h.FilterUID || h.FilterShift)
 }
 
 // runHistory plays a history; it returns the observation of the last sync and the
@@ -57,7 +59,7 @@ func runHistory(h History, notify bool) (*SyncObs, fsmodel.Tree, string) {
 		}
 		return o, ""
 	}
-	if _, e := sync(SyncCase{Mem: h.Mem, FilterUID: h.FilterUID}); e != "" {
+	if _, e := sync(SyncCase{Mem: h.Mem, FilterUID: h.FilterUID, FilterShift: h.FilterShift}); e != "" {
 		return nil, nil, "initial sync: " + e
 	}
 	var last *SyncObs
@@ -69,7 +71,7 @@ func runHistory(h History, notify bool) (*SyncObs, fsmodel.Tree, string) {
 			}
 			cur = n
 		}
-		c := SyncCase{Mem: h.Mem, FilterUID: h.FilterUID}
+		c := SyncCase{Mem: h.Mem, FilterUID: h.FilterUID, FilterShift: h.FilterShift}
 		if i == len(h.Steps)-1 {
 			c.Differ, c.Notify = h.Differ, notify
 		}
@@ -126,6 +128,11 @@ func judgeC02(h History) (string, string) {
 	unchanged := map[string]bool{}
 	for i, st := range announced {
 		b := before[st.Path]
+		if h.FilterShift {
+			// the destination is compared with the entry as the receiver's Filter maps it
+			st = st.Clone()
+			st.Uid, st.Gid = st.Uid+1000, st.Gid+1000
+		}
 		same := b != nil && wireIdentity(b) == wireIdentity(st)
 		if h.Differ == 1 { // DiffNone
 			same = false
@@ -230,6 +237,11 @@ func c02Histories(tier string) []History {
 					out = append(out, History{Base: base, Steps: [][]Edit{{e}}, Differ: differ, Mem: true})
 				}
 			}
+		}
+		// a receiver-side Filter that shifts ownership (applying it twice is not the same as applying it once)
+		out = append(out, History{Base: base, Steps: [][]Edit{{}}, FilterShift: true})
+		for _, e := range edits {
+			out = append(out, History{Base: base, Steps: [][]Edit{{e}}, FilterShift: true})
 		}
 		if tier != "thorough" {
 			continue
